@@ -1,8 +1,8 @@
-\* quick, part 1: NP in {4,5}, D in 1..3, every candidate, F in {1/2, 1}; all cases emitted
+\* whole-generation replay: best = member 0, F = 1/2, CR = 1/2, every candidate; shapes <<5,3>>, <<6,1>>, <<4,2>>
 SPECIFICATION Spec
 CONSTANTS
-  Shapes <- S45
-  Fns = {1, 2}
+  Shapes <- SGen
+  Fns = {1}
   Q = 8
   CRq = 4
   MaxSteps = 1
@@ -10,7 +10,7 @@ CONSTANTS
   StratSet <- Names
   AllCands = TRUE
   AllDraws = FALSE
-  BestIsMember = FALSE
+  BestIsMember = TRUE
 INVARIANT ComponentsWellFormed
 INVARIANT AtLeastOneMutated
 INVARIANT ExpContiguousRun
